@@ -59,3 +59,53 @@ func VerifC15Describe() {
 	}
 	vf.Reach("end")
 }
+
+// VerifC15DescribeHistory: one describer asked twice (a library user, or a command that lists
+// several things in one run) answers the second question as a fresh describer would: another
+// preference, another root or another attribute before it changes nothing.
+func VerifC15DescribeHistory() {
+	accs := [3]note.Accidental{note.Flat, note.Natural, note.Sharp}
+	pick := func(tag string) (string, note.Note, bool) {
+		a := verifDict.Attrs[vf.NondetIntRange(tag+"attr", 0, len(verifDict.Attrs)-1)]
+		rl := vf.NondetIntRange(tag+"root.letter", 0, 6)
+		ra := vf.NondetIntRange(tag+"root.acc", -1, 1)
+		return a.Name, note.NewNote(crdx.Name(rl), accs[ra+1]), vf.NondetIntRange(tag+"sharp", 0, 1) == 1
+	}
+	n2, r2, s2 := pick("second.")
+	// the first question: the same with the other preference, or with another root or attribute
+	n1, r1, s1 := n2, r2, !s2
+	switch vf.NondetIntRange("first-differs-in", 0, 2) {
+	case 1:
+		r1 = note.NewNote(crdx.Name(vf.NondetIntRange("first.root.letter", 0, 6)), accs[1])
+		s1 = s2
+	case 2:
+		n1 = verifDict.Attrs[vf.NondetIntRange("first.attr", 0, len(verifDict.Attrs)-1)].Name
+		s1 = s2
+	}
+	d := NewAttribute(verifDict.Map)
+	_, err1 := d.Describe(n1, r1, s1)
+	got, err2 := d.Describe(n2, r2, s2)
+	want, werr := NewAttribute(verifDict.Map).Describe(n2, r2, s2)
+	vf.Assert("describes", err1 == nil && err2 == nil && werr == nil && got != nil && want != nil)
+	if got == nil || want == nil {
+		return
+	}
+	vf.Assert("second-answer-as-from-a-fresh-describer", got.Applied == want.Applied && got.OctaveDiff == want.OctaveDiff && got.Semitone == want.Semitone && got.SemitoneWithoutOctave == want.SemitoneWithoutOctave && got.Root == want.Root)
+	if n1 != n2 || r1 != r2 {
+		vf.Reach("end")
+		return
+	}
+	// the same through a chord describer built on one attribute describer
+	sym := verifDict.Symbols[(vf.NondetIntRange("chord", 0, 3)*11)%len(verifDict.Symbols)]
+	cd := NewChord(verifDict.Map, NewAttribute(verifDict.Map))
+	_, cerr1 := cd.Describe(sym, r2, !s2)
+	cgot, cerr2 := cd.Describe(sym, r2, s2)
+	cwant, cwerr := NewChord(verifDict.Map, NewAttribute(verifDict.Map)).Describe(sym, r2, s2)
+	vf.Assert("chord-describes", cerr1 == nil && cerr2 == nil && cwerr == nil && cgot != nil && cwant != nil && len(cgot.Attributes) == len(cwant.Attributes))
+	if cgot != nil && cwant != nil && len(cgot.Attributes) == len(cwant.Attributes) {
+		for i := range cwant.Attributes {
+			vf.Assert("chord-second-answer-as-from-a-fresh-describer", cgot.Attributes[i].Applied == cwant.Attributes[i].Applied && cgot.Attributes[i].OctaveDiff == cwant.Attributes[i].OctaveDiff)
+		}
+	}
+	vf.Reach("end")
+}
